@@ -1,7 +1,7 @@
 (* No lost wake-up, top level: the wake invariants hold in every reachable state of every schedule,
    and imply the statement of SpscWake.no_lost_wakeup_at. *)
 From SQ Require Import lib.Base lib.ListX gen.Gen_C17.
-From SQ Require Import model.Spsc proofs.SpscClose proofs.SpscData proofs.SpscProofs proofs.SpscEnum proofs.SpscWake proofs.SpscWakeInv.
+From SQ Require Import model.Spsc proofs.SpscClose proofs.SpscData proofs.SpscProofs proofs.SpscEnum proofs.SpscWake proofs.SpscWakeInv proofs.SpscWakeRP proofs.SpscWakeRC proofs.SpscWakeSP proofs.SpscWakeSC.
 Local Open Scope N_scope.
 
 Lemma winv_r_pbegin : forall op s, ppc s = Idle -> winv_r s = true -> winv_r (pbegin op s) = true.
